@@ -31,6 +31,9 @@ CHECKS = {
  'C27': dict(cat='proof', tech='deductive: string / regular-language postconditions (z3 strings with the cvc5 and z3 4.8 fall-backs) on the real escape_name, maybe_escape_name, is_valid_name, protect_name(s), protect_value, cql_quote and the USE statement of Connection.set_keyspace_blocking/async for every unicode string; reserved-word set inclusion; bounded round trip through an independent CQL lexer for lemma L1',
              text='For every string: the quoted forms are exactly quote + text with every quote doubled + quote; a name is left bare only if it is in [a-z][a-z0-9_]* (reads back unchanged) and is not one of Cassandra\'s reserved words (transcribed list; every one of them is in the driver\'s reserved set). That such a quoted form lexes back to the original (an induction over strings) is a bounded stand-in: exhaustive over small alphabets through the real functions and an independent lexer.',
              ref='DESIGN.md §4 C27'),
+ 'C39': dict(cat='proof', tech='deductive: postconditions on the real BoundStatement.bind (encryption branch) and ResultMessage.recv_results_rows (decode_val/decode_row) with the encryption policy as an abstract inverse pair whose operations require bytes; bounded probe and end-to-end round trip with the real AES256ColumnEncryptionPolicy',
+             text='For every integer value and for null, for an encrypted and a plain column: bind sends encrypt(serialize(v)) (never the plaintext, null stays null, the policy is only asked for non-null values) and a ROWS body containing that ciphertext or a null cell decodes to the original value / None with decrypt only ever handed bytes. The AES policy itself is an assumed contract (E-AES) probed on the real class (bounded); the compiled decoder is outside this family.',
+             ref='DESIGN.md §4 C39'),
  'C31': dict(cat='proof', tech='deductive: lock-invariant proof of MonotonicTimestampGenerator.__call__ for arbitrary clock and history + frame scan',
              text='Lock invariant (all returned timestamps <= last) proved preserved by __call__ for an arbitrary prior state and clock reading; '
                   'strict monotonicity across threads follows for lock-respecting schedules; unprotected reads/writes of `last` fail an obligation.',
